@@ -1,5 +1,7 @@
 pub mod c01;
 pub mod c02;
+pub mod c04;
+pub mod c05;
 pub mod c11;
 pub mod c13;
 pub mod replay;
@@ -10,6 +12,8 @@ pub fn dispatch(ctx: &Ctx) -> Option<Coverage> {
     Some(match ctx.prop.as_str() {
         "C01" => c01::run(ctx),
         "C02" => c02::run_c02(ctx),
+        "C04" => c04::run(ctx),
+        "C05" => c05::run(ctx),
         "C10" => c02::run_c10(ctx),
         "C11" => c11::run_c11(ctx),
         "C13" => c13::run(ctx),
